@@ -35,7 +35,7 @@ def do_import(src):
 def run(pid, only=None, checks=None, tier="quick"):
     if sh("git -C /repo status --porcelain").stdout.strip():
         sys.exit("refusing: /repo has uncommitted changes")
-    for d in sorted(glob.glob(os.path.join(VERIF, "seeded", pid, "[0-9]*"))):
+    for d in sorted(glob.glob(os.path.join(VERIF, os.environ.get("SEED_DIR", "seeded"), pid, "[0-9]*"))):
         n = os.path.basename(d)
         if only and n != only:
             continue
@@ -67,7 +67,7 @@ def run(pid, only=None, checks=None, tier="quick"):
 
 def summary():
     rows = []
-    for f in sorted(glob.glob(os.path.join(VERIF, "seeded", "*", "*", "result.json"))):
+    for f in sorted(glob.glob(os.path.join(VERIF, os.environ.get("SEED_DIR", "seeded"), "*", "*", "result.json"))):
         d = json.load(open(f))
         pid, n = f.split(os.sep)[-3:-1]
         m = json.load(open(f.replace("result.json", "meta.json")))
@@ -81,7 +81,7 @@ def summary():
     out += [f"| {a} | {b} | {c} | {d} |" for a, b, c, d in rows]
     det = sum(1 for r in rows if r[2].startswith("yes"))
     out += ["", f"{det} of {len(rows)} detected."]
-    open(os.path.join(VERIF, "seeded", "SUMMARY.md"), "w").write("\n".join(out) + "\n")
+    open(os.path.join(VERIF, os.environ.get("SEED_DIR", "seeded"), "SUMMARY.md"), "w").write("\n".join(out) + "\n")
     print(f"{det} of {len(rows)} detected")
 
 
